@@ -475,11 +475,109 @@ theorem finItem_ok {g : Grammar} {s : Sent} {cfg : Cfg} {it : Item} (h : NonFinO
     rw [← h.cat]; simpa using hroot
   · simp only [finItem, modelScore_eq, h.inS, h.head]
 
+/-! ### the order in which the chart is walked: `neighbours` is a permutation of the filter -/
+
+theorem firstSeen_foldl_mem (keys acc : List Nat) (k : Nat) :
+    k ∈ keys.foldl (fun acc k => if acc.elem k then acc else acc ++ [k]) acc ↔ k ∈ acc ∨ k ∈ keys := by
+  induction keys generalizing acc with
+  | nil => simp
+  | cons x xs ih =>
+    rw [List.foldl_cons, ih]
+    by_cases hx : x ∈ acc
+    · simp only [List.elem_eq_mem, hx, decide_true, if_true, List.mem_cons]
+      constructor
+      · rintro (h | h)
+        · exact Or.inl h
+        · exact Or.inr (Or.inr h)
+      · rintro (h | rfl | h)
+        · exact Or.inl h
+        · exact Or.inl hx
+        · exact Or.inr h
+    · simp only [List.elem_eq_mem, hx, decide_false, Bool.false_eq_true, if_false, List.mem_append,
+        List.mem_cons, List.mem_nil_iff, or_false]
+      constructor
+      · rintro ((h | h) | h)
+        · exact Or.inl h
+        · exact Or.inr (Or.inl h)
+        · exact Or.inr (Or.inr h)
+      · rintro (h | h | h)
+        · exact Or.inl (Or.inl h)
+        · exact Or.inl (Or.inr h)
+        · exact Or.inr h
+
+theorem firstSeen_foldl_nodup (keys acc : List Nat) (h : acc.Nodup) :
+    (keys.foldl (fun acc k => if acc.elem k then acc else acc ++ [k]) acc).Nodup := by
+  induction keys generalizing acc with
+  | nil => exact h
+  | cons x xs ih =>
+    rw [List.foldl_cons]
+    apply ih
+    by_cases hx : x ∈ acc
+    · simpa only [List.elem_eq_mem, hx, decide_true, if_true] using h
+    · simp only [List.elem_eq_mem, hx, decide_false, Bool.false_eq_true, if_false]
+      refine List.nodup_append.2 ⟨h, List.pairwise_singleton _ _, ?_⟩
+      intro a ha b hb e
+      rw [List.mem_singleton] at hb
+      subst hb; subst e
+      exact hx ha
+
+theorem mem_firstSeen {keys : List Nat} {k : Nat} : k ∈ firstSeen keys ↔ k ∈ keys := by
+  rw [firstSeen, firstSeen_foldl_mem]; simp
+
+theorem firstSeen_nodup (keys : List Nat) : (firstSeen keys).Nodup :=
+  firstSeen_foldl_nodup keys [] List.nodup_nil
+
+/-- grouping a list by a key taken from a duplicate-free list of all its keys permutes it -/
+theorem flatMap_filter_len_perm (ks : List Nat) (l : List Item) (hnd : ks.Nodup)
+    (hall : ∀ x ∈ l, x.len ∈ ks) :
+    (ks.flatMap fun k => l.filter (fun o => o.len == k)).Perm l := by
+  induction ks generalizing l with
+  | nil =>
+    cases l with
+    | nil => exact List.Perm.refl _
+    | cons x xs => exact absurd (hall x List.mem_cons_self) (by simp)
+  | cons k ks ih =>
+    rw [List.flatMap_cons]
+    have hnd' := List.nodup_cons.1 hnd
+    have h1 : (ks.flatMap fun k' => l.filter (fun o => o.len == k')) =
+        ks.flatMap fun k' => (l.filter (fun o => !(o.len == k))).filter (fun o => o.len == k') := by
+      rw [List.flatMap_def, List.flatMap_def]
+      congr 1
+      apply List.map_congr_left
+      intro k' hk'
+      rw [List.filter_filter]
+      apply List.filter_congr
+      intro x _
+      have hne : k' ≠ k := fun e => hnd'.1 (e ▸ hk')
+      by_cases hxk : x.len = k'
+      · have : ¬ x.len = k := fun e => hne (hxk.symm.trans e)
+        simp [hxk, hne]
+      · simp [hxk]
+    rw [h1]
+    refine (List.Perm.append_left _ (ih _ hnd'.2 ?_)).trans (List.filter_append_perm _ l)
+    intro x hx
+    rw [List.mem_filter] at hx
+    rcases List.mem_cons.1 (hall x hx.1) with e | h
+    · simp [e] at hx
+    · exact h
+
+theorem neighbours_perm (chart : List Item) (p : Item → Bool) :
+    (neighbours chart p).Perm (chart.filter p) := by
+  unfold neighbours
+  refine flatMap_filter_len_perm _ _ (firstSeen_nodup _) ?_
+  intro x hx
+  rw [mem_firstSeen, List.map_reverse, List.mem_reverse]
+  exact List.mem_map.2 ⟨x, hx, rfl⟩
+
+theorem mem_neighbours {chart : List Item} {p : Item → Bool} {o : Item} :
+    o ∈ neighbours chart p ↔ o ∈ chart ∧ p o = true := by
+  rw [(neighbours_perm chart p).mem_iff, List.mem_filter]
+
 /-- everything pushed when a well-formed item enters a well-formed chart is well-formed -/
 theorem expand_ok {g : Grammar} {s : Sent} {cfg : Cfg} {chart : List Item} {it x : Item}
     (h : NonFinOK g s cfg it) (hf : it.fin = false) (hc : ∀ o ∈ chart, NonFinOK g s cfg o)
     (hx : x ∈ expand g s cfg chart it) : ItemOK g s cfg x := by
-  simp only [expand, List.mem_append, List.mem_flatMap, List.mem_filter, decide_eq_true_eq] at hx
+  simp only [expand, List.mem_append, List.mem_flatMap, mem_neighbours, beq_iff_eq] at hx
   rcases hx with ((hx | hx) | ⟨o, ⟨ho, hadj⟩, hx⟩) | ⟨o, ⟨ho, hadj⟩, hx⟩
   · split at hx
     · rename_i hcond
@@ -499,13 +597,24 @@ theorem expand_ok {g : Grammar} {s : Sent} {cfg : Cfg} {chart : List Item} {it x
 /-! ### one step of the loop -/
 
 theorem PickOK.spec {pick : Pick} (hp : PickOK pick) {l : List Item} {it : Item} {rest : List Item}
-    (h : pick l = some (it, rest)) : (it :: rest).Perm l ∧ ∀ o ∈ l, o.prio ≤ it.prio := by
+    (h : pick.pop l = some (it, rest)) : (it :: rest).Perm l ∧ ∀ o ∈ l, o.prio ≤ it.prio := by
   have hne : l ≠ [] := by
     intro e; subst e; rw [hp.1] at h; cases h
-  obtain ⟨it', rest', e, hperm, hmax⟩ := hp.2 l hne
+  obtain ⟨it', rest', e, hperm, hmax⟩ := hp.2.1 l hne
   rw [e] at h
   cases h
   exact ⟨hperm, hmax⟩
+
+theorem PickOK.push_perm {pick : Pick} (hp : PickOK pick) (new old : List Item) :
+    (pick.push new old).Perm (new ++ old) := hp.2.2 new old
+
+theorem PickOK.mem_push {pick : Pick} (hp : PickOK pick) {new old : List Item} {x : Item} :
+    x ∈ pick.push new old ↔ x ∈ new ∨ x ∈ old := by
+  rw [(hp.push_perm new old).mem_iff, List.mem_append]
+
+theorem PickOK.mem_push_nil {pick : Pick} (hp : PickOK pick) {new : List Item} {x : Item} :
+    x ∈ pick.push new [] ↔ x ∈ new := by
+  rw [hp.mem_push]; simp
 
 /-- the state right after `it` was taken from the agenda -/
 def popSt (st : St) (it : Item) (rest : List Item) : St :=
@@ -515,14 +624,14 @@ def popSt (st : St) (it : Item) (rest : List Item) : St :=
 /-- the four outcomes of a successful step -/
 theorem stepWith_cases {pick : Pick} {g : Grammar} {s : Sent} {cfg : Cfg} {st st' : St}
     (h : stepWith pick g s cfg st = some st') :
-    st.goal.length < cfg.nbest ∧ ∃ it rest, pick st.agenda = some (it, rest) ∧
+    st.goal.length < cfg.nbest ∧ ∃ it rest, pick.pop st.agenda = some (it, rest) ∧
       ( (it.fin = true ∧ (cfg.nbest ≤ 1 ∧ inGoal st.goal it = true) ∧ st' = popSt st it rest)
       ∨ (it.fin = true ∧ ¬ (cfg.nbest ≤ 1 ∧ inGoal st.goal it = true) ∧
           st' = { popSt st it rest with goal := it :: st.goal })
       ∨ (it.fin = false ∧ (cfg.nbest ≤ 1 ∧ inChart st.chart it = true) ∧ st' = popSt st it rest)
       ∨ (it.fin = false ∧ ¬ (cfg.nbest ≤ 1 ∧ inChart st.chart it = true) ∧
           st' = { popSt st it rest with chart := it :: st.chart,
-                                        agenda := expand g s cfg st.chart it ++ rest }) ) := by
+                                        agenda := pick.push (expand g s cfg st.chart it) rest }) ) := by
   unfold stepWith at h
   split at h
   · cases h
@@ -547,7 +656,7 @@ theorem stepWith_cases {pick : Pick} {g : Grammar} {s : Sent} {cfg : Cfg} {st st
           exact Or.inr (Or.inl ⟨rfl, hc, (Option.some.inj h).symm⟩)
 
 theorem stepWith_none_iff {pick : Pick} {g : Grammar} {s : Sent} {cfg : Cfg} {st : St} :
-    stepWith pick g s cfg st = none ↔ cfg.nbest ≤ st.goal.length ∨ pick st.agenda = none := by
+    stepWith pick g s cfg st = none ↔ cfg.nbest ≤ st.goal.length ∨ pick.pop st.agenda = none := by
   unfold stepWith
   split
   · simp [*]
@@ -606,8 +715,11 @@ structure StOK (g : Grammar) (s : Sent) (cfg : Cfg) (st : St) : Prop where
   goal_le : st.goal.length ≤ cfg.nbest
   steps_eq : st.steps = st.popped.length
 
-theorem StOK.init (g : Grammar) (s : Sent) (cfg : Cfg) : StOK g s cfg (init s cfg) where
-  agenda := fun it h => let h' := leafItems_ok (g := g) h; ItemOK.of_nonFin h'.1 h'.2
+theorem StOK.init {pick : Pick} (hp : PickOK pick) (g : Grammar) (s : Sent) (cfg : Cfg) :
+    StOK g s cfg (init pick s cfg) where
+  agenda := fun it h =>
+    let h' := leafItems_ok (g := g) (s := s) (cfg := cfg) (it := it) (hp.mem_push_nil.1 h)
+    ItemOK.of_nonFin h'.1 h'.2
   chart := fun it h => by cases h
   goal := fun it h => by cases h
   popped := fun it h => by cases h
@@ -649,7 +761,7 @@ theorem StOK.step {pick : Pick} {g : Grammar} {s : Sent} {cfg : Cfg} {st st' : S
   · refine ⟨?_, ?_, h.goal, hpop, ?_, fun x hx => List.mem_cons_of_mem _ (h.goal_sub x hx),
       h.goal_le, hsteps⟩
     · intro x hx
-      rcases List.mem_append.1 hx with hx | hx
+      rcases hp.mem_push.1 hx with hx | hx
       · exact expand_ok (hit.1 hf) hf (fun o ho => (h.chart o ho).2) hx
       · exact hrest x hx
     · intro x hx
@@ -667,8 +779,8 @@ theorem StOK.of_loop {pick : Pick} (hp : PickOK pick) (g : Grammar) (s : Sent) (
   loop_inv (StOK g s cfg) (fun _ _ h hs => h.step hp hs) fuel st h
 
 theorem StOK.final {pick : Pick} (hp : PickOK pick) (g : Grammar) (s : Sent) (cfg : Cfg) :
-    StOK g s cfg (Search.loop pick g s cfg cfg.maxStep (Search.init s cfg)) :=
-  (StOK.init g s cfg).of_loop hp g s cfg cfg.maxStep
+    StOK g s cfg (Search.loop pick g s cfg cfg.maxStep (Search.init pick s cfg)) :=
+  (StOK.init hp g s cfg).of_loop hp g s cfg cfg.maxStep
 
 /-! ### consistency: nothing pushed by `expand … it` has a larger priority than `it` -/
 
@@ -729,7 +841,7 @@ theorem expand_prio_le {g : Grammar} {s : Sent} {cfg : Cfg} {chart : List Item} 
     (hs : SentOK s) (hp : 0 ≤ cfg.penalty) (h : NonFinOK g s cfg it)
     (hc : ∀ o ∈ chart, NonFinOK g s cfg o) (hx : x ∈ expand g s cfg chart it) :
     x.prio ≤ it.prio := by
-  simp only [expand, List.mem_append, List.mem_flatMap, List.mem_filter, decide_eq_true_eq] at hx
+  simp only [expand, List.mem_append, List.mem_flatMap, mem_neighbours, beq_iff_eq] at hx
   rcases hx with ((hx | hx) | ⟨o, ⟨ho, hadj⟩, hx⟩) | ⟨o, ⟨ho, hadj⟩, hx⟩
   · split at hx
     · rename_i hcond
@@ -750,7 +862,7 @@ structure PrioOK (st : St) : Prop where
   chain : (st.popped.map Item.prio).Pairwise (· ≤ ·)
   bound : ∀ a ∈ st.agenda, ∀ p ∈ st.popped, a.prio ≤ p.prio
 
-theorem PrioOK.init (s : Sent) (cfg : Cfg) : PrioOK (init s cfg) :=
+theorem PrioOK.init (pick : Pick) (s : Sent) (cfg : Cfg) : PrioOK (init pick s cfg) :=
   ⟨List.Pairwise.nil, fun _ _ _ hp => by cases hp⟩
 
 theorem PrioOK.step {pick : Pick} {g : Grammar} {s : Sent} {cfg : Cfg} {st st' : St}
@@ -778,7 +890,7 @@ theorem PrioOK.step {pick : Pick} {g : Grammar} {s : Sent} {cfg : Cfg} {st st' :
   · exact ⟨hchain, hrest⟩
   · refine ⟨hchain, ?_⟩
     intro a ha p hp'
-    rcases List.mem_append.1 ha with ha | ha
+    rcases hp.mem_push.1 ha with ha | ha
     · have h1 : a.prio ≤ it.prio :=
         expand_prio_le hs hpen (hit.1 hf) (fun o ho => (hok.chart o ho).2) ha
       rcases List.mem_cons.1 hp' with rfl | hp'
@@ -788,11 +900,11 @@ theorem PrioOK.step {pick : Pick} {g : Grammar} {s : Sent} {cfg : Cfg} {st st' :
 
 theorem PrioOK.final {pick : Pick} (hp : PickOK pick) {g : Grammar} {s : Sent} {cfg : Cfg}
     (hs : SentOK s) (hpen : 0 ≤ cfg.penalty) :
-    PrioOK (Search.loop pick g s cfg cfg.maxStep (Search.init s cfg)) := by
+    PrioOK (Search.loop pick g s cfg cfg.maxStep (Search.init pick s cfg)) := by
   have := loop_inv (pick := pick) (g := g) (s := s) (cfg := cfg)
     (fun st => StOK g s cfg st ∧ PrioOK st)
     (fun st st' h hstep => ⟨h.1.step hp hstep, h.2.step hp hs hpen h.1 hstep⟩)
-    cfg.maxStep (Search.init s cfg) ⟨StOK.init g s cfg, PrioOK.init s cfg⟩
+    cfg.maxStep (Search.init pick s cfg) ⟨StOK.init hp g s cfg, PrioOK.init pick s cfg⟩
   exact this.2
 
 /-! ### sorting the goal list -/
@@ -839,7 +951,7 @@ theorem sortDesc_sorted (l : List Item) :
   | nil => exact List.Pairwise.nil
   | cons c cs ih => exact insertDesc_sorted ih
 
-/-! ### the driver's `pick` -/
+/-! ### the simplest agenda `pickFirstMax` -/
 
 theorem foldl_maxPrio_ge_init (l : List Item) (a : Int) :
     a ≤ l.foldl (fun m i => max m i.prio) a := by
@@ -907,7 +1019,7 @@ theorem removeFirst_spec {p : Item → Bool} {l : List Item} (h : ∃ x ∈ l, p
       exact (List.Perm.swap z y rest).trans (List.Perm.cons z hperm)
 
 theorem pickFirstMax_PickOK : PickOK pickFirstMax := by
-  refine ⟨rfl, ?_⟩
+  refine ⟨rfl, ?_, fun _ _ => List.Perm.refl _⟩
   intro l hne
   cases hm : maxPrio l with
   | none => cases l with
@@ -918,7 +1030,7 @@ theorem pickFirstMax_PickOK : PickOK pickFirstMax := by
     obtain ⟨y, rest, e, hy, hperm⟩ :=
       removeFirst_spec (p := fun i => i.prio == m) (l := l) ⟨x, hx, by simp [hxm]⟩
     refine ⟨y, rest, ?_, hperm, ?_⟩
-    · simp only [pickFirstMax, hm]; exact e
+    · simp only [pickFirstMax, popFirstMax, hm]; exact e
     · intro o ho
       have : y.prio = m := by simpa using hy
       rw [this]; exact hmax o ho
